@@ -14,6 +14,13 @@ UNITS = {
     'from_float': {'sources': ('core', 'fpdec'), 'modes': ('F', 'D')},
     'format': {'sources': ('core', 'fpdec'), 'modes': ('F', 'D')},
     'format_roundtrip': {'sources': ('core', 'fpdec'), 'modes': ('F',), 'module': 'format', 'builder': 'build_roundtrip'},
+    'ratio': {'sources': ('core', 'fpdec'), 'modes': ('F', 'D')},
+    'magnitude': {'sources': ('core',), 'modes': ('F', 'D')},
+    'unops': {'sources': ('core', 'fpdec'), 'modes': ('F', 'D')},
+    'num_traits': {'sources': ('core', 'fpdec'), 'features': ('num-traits',), 'modes': ('F', 'D'), 'module': 'unops', 'builder': 'build_num_traits'},
+    'conv_int': {'sources': ('core', 'fpdec'), 'modes': ('F', 'D')},
+    'conv_int_total': {'sources': ('core', 'fpdec'), 'modes': ('F', 'D'), 'module': 'conv_int', 'builder': 'build_total'},
+    'into_float': {'sources': ('core', 'fpdec'), 'modes': ('F', 'D')},
     'cmp': {'sources': ('core', 'fpdec'), 'modes': ('F', 'D')},
     'checked_add_sub': {'sources': ('core', 'fpdec'), 'modes': ('F', 'D'), 'module': 'add_sub', 'builder': 'build_checked'},
 }
@@ -65,6 +72,35 @@ PROPS = {
             'quantize (generic blanket impl: div_rounded(q, 0) * q) is NOT under contract yet; its two constituents are',
         ],
     },
+    'C09': {
+        'units': ['core_kernel', 'ratio'],
+        'title': 'Hash agrees with equality; as_integer_ratio is the reduced fraction',
+        'design_ref': 'DESIGN.md section 7 (C09)',
+        'assumptions': [
+            'hashing of the (i128, i128) pair is an uninterpreted deterministic function of (hasher state, pair) (assume_specification on <(T,B) as Hash>::hash)',
+            'i128::trailing_zeros / i128::abs / core::cmp::min specified by assume_specification (std documentation)',
+            'equal value => equal reduced pair => equal hash: spec-level lemmas (units/ratio.py, spec/numtheory.rs) over the proved postcondition of as_integer_ratio',
+        ],
+    },
+    'C14': {
+        'units': ['core_kernel', 'conv_int', 'conv_int_total'],
+        'title': 'Integer conversions are exact and total with precise error kinds',
+        'design_ref': 'DESIGN.md section 7 (C14)',
+        'assumptions': [
+            'Verus cannot attach a precondition to impls of From/TryFrom: the value clauses are proved for every Decimal for which the call returns (unit conv_int); totality (no panic) for valid Decimals is proved on mechanically derived free-function copies of the same method bodies (unit conv_int_total, rule R54)',
+            'i128::try_from(u128), i128::abs by assume_specification; the narrowing T::try_from(i128) are specified by vstd',
+        ],
+    },
+    'C15': {
+        'units': ['core_kernel', 'magnitude', 'unops', 'num_traits'],
+        'title': 'floor, ceil, trunc, fract, abs, neg, magnitude and sign predicates are exact',
+        'design_ref': 'DESIGN.md section 7 (C15)',
+        'assumptions': [
+            'num-traits: the external traits Zero/One/Num/Signed are stand-in declarations (required-method signatures of num-traits 0.2.19) generated in the unit; provided methods (set_zero, set_one) not covered',
+            'from_str_radix is specified relative to an uninterpreted from_str_result (the parser itself is C06)',
+            'rkyv ArchivedDecimal variants of the predicates not covered',
+        ],
+    },
     'C11': {
         'units': ['core_kernel', 'format'],
         'title': 'Formatting with precision, width, fill, alignment and sign flags is correct',
@@ -75,6 +111,17 @@ PROPS = {
             'R7: core::fmt is outside Verus: format!/write!/to_string are stubs whose postcondition is generated from the format-string literal in the source; Formatter is a stand-in with a ghost log',
             'sentence 2 of C11 (width, fill, alignment, + and 0 flags) is core::fmt::Formatter::pad_integral: trusted std code',
             'R5: thread default rounding mode read once per call',
+        ],
+    },
+    'C12': {
+        'units': ['core_kernel', 'into_float'],
+        'title': 'Decimal to f64/f32 conversion is correctly rounded',
+        'design_ref': 'DESIGN.md section 7 (C12)',
+        'assumptions': [
+            'the result is specified as a BIT PATTERN: from_bits is called with sign | rne_bits(|c|, 10^f); rne_bits is proved (spec/float_rne.rs) to be the nearest normal number, ties to even; IEEE-754 layout of f64::from_bits / f32::from_bits is assumed',
+            'Decimals with n_frac_digits == 0 or coeff == 0 go through the compiler int->float cast (`coeff as f64`): its correct rounding (and 0 -> +0.0) is trusted rustc/LLVM behaviour, NOT verified',
+            'u128::leading_zeros, u128::pow, f64::MANTISSA_DIGITS/MAX_EXP, size_of::<u64/u32> by assume_specification / table (std documentation)',
+            'From<Decimal> for f64/f32 are verified as mechanically derived free functions (rule R54), because Verus does not allow a precondition (valid(d)) on impls of From',
         ],
     },
     'C13': {
